@@ -52,6 +52,19 @@ def json_dbs():
     return [db1, db2, db3, db4]
 
 
+_big = {}
+
+
+def json_db_big():
+    """one keyword whose result (9000 identifiers of 128 bytes) serializes to more than 1 MiB - the default message limit of
+    the websockets library - and an index of several MiB; plus a one-posting keyword"""
+    if not _big:
+        import hashlib
+        ids = [b''.join(hashlib.sha256(b'big-%d-%d' % (i, j)).digest() for j in range(4)).hex() for i in range(9000)]
+        _big['db'] = {'big': ids, 'tiny': [ids[0][:-2] + '00']}
+    return _big['db']
+
+
 def describe(tier):
     return {
         'rule': 'case = (scheme, JSON database, placement): all 9 schemes x 2 JSON databases (the repository\'s example_db.json; one with a ' 
@@ -62,13 +75,13 @@ def describe(tier):
                 'driver mirrors frontend/client/commands.py (JSON -> convert_database_keyword_to_bytes, wait callbacks) and searches every '
                 'keyword plus one absent keyword in both search steps. Oracle: the bytes handed to the search callback deserialize to '
                 'DB.get(w, empty); hex/int/raw (and utf8 for printable identifiers) renderings of BytesConverter reproduce the JSON identifiers; '
-                'a step that raises or a search that ends in the client\'s 60 s (virtual) timeout is a violation. Plus, per scheme: all 27 ways of letting none / one / all of the server\'s cleanup timers fire after upload-config, upload-index and search1; a second client object loaded from disk before a later step and used (still unconnected) for the searches; the workflow through frontend/client/commands.py itself (JSON files in, service addressed by name, one fresh process per command, printed hex and int results compared with the JSON file) for 3 databases; two services with different parameters interleaved command by '
+                'a step that raises or a search that ends in the client\'s 60 s (virtual) timeout is a violation. Plus, per scheme: all 27 ways of letting none / one / all of the server\'s cleanup timers fire after upload-config, upload-index and search1; a second client object loaded from disk before a later step and used (still unconnected) for the searches; one workflow whose index is several MiB and whose largest result (9000 identifiers of 128 bytes) exceeds 1 MiB; the workflow through frontend/client/commands.py itself (JSON files in, service addressed by name, one fresh process per command, printed hex and int results compared with the JSON file) for 3 databases; two services with different parameters interleaved command by '
                 'command on one server and one client process (both orders). Deliveries are sequential '
                 '(one client): no scheduling choices. non-trivial = placement with at least one reload.',
         'bounds': '2^6 placements x 3 restart options per (scheme, database); 7 steps',
         'assumptions': ['in-memory transport instead of TCP (validated by mc/loopback.py on loopback TCP)',
                         'server restart = the server process is killed between two client commands and started again on the same directory'],
-        'must_be_nonzero': ['workflows', 'absent-searched', 'server-restarts', 'reloads', 'tcp-loopback-replays', 'two-service-workflows', 'patterned-keys', 'timing-variants', 'early-object-variants', 'cli-workflows'],
+        'must_be_nonzero': ['workflows', 'absent-searched', 'server-restarts', 'reloads', 'tcp-loopback-replays', 'two-service-workflows', 'patterned-keys', 'timing-variants', 'early-object-variants', 'cli-workflows', 'large-workflows'],
     }
 
 
@@ -95,6 +108,8 @@ def units(tier, seed):
         us.append(('cli/%s' % name, {'cli': name}))
     for name in ('CJJ14.PiBas', 'CGKO06.SSE1', 'DP17.Pi', 'CT14.Pi'):
         us.append(('keypatterns/%s' % name, {'keypatterns': name}))
+    for name in (['CJJ14.PiBas'] if tier == 'quick' else ['CJJ14.PiBas', 'CJJ14.PiPack', 'CT14.Pi']):
+        us.append(('large/%s' % name, {'large': name}))
     for name in sse.SCHEMES:
         us.append(('timing/%s' % name, {'timing': name}))
     # conformance of the transport model: workflows replayed over real loopback TCP with the real client (mc/loopback.py)
@@ -107,7 +122,7 @@ def units(tier, seed):
     return sorted(us, key=lambda u: not u[0].startswith('tcp'))
 
 
-def run_case(r, seed, name, dbi, bits, restart, keypattern=None, timing=None, early_object_at=None):
+def run_case(r, seed, name, dbi, bits, restart, keypattern=None, timing=None, early_object_at=None, cfg_over=None):
     from toolkit.database_utils import convert_database_keyword_to_bytes
     from toolkit.bytes_utils import BytesConverter
     case = {'scheme': name, 'db': dbi, 'reload_before_step': bits, 'server_restart_before_step': restart}
@@ -122,8 +137,12 @@ def run_case(r, seed, name, dbi, bits, restart, keypattern=None, timing=None, ea
         r.count('early-object-variants')
     core.note_case(case)
     det.seed_case(seed, PROPERTY, name, dbi)
-    jdb = json_dbs()[dbi]
+    jdb = json_dbs()[dbi] if dbi != 'big' else json_db_big()
     cfg = wf_cfg(name)
+    if cfg_over:
+        cfg.update(cfg_over)
+        case['cfg_over'] = cfg_over
+        r.count('large-workflows')
     bdb = convert_database_keyword_to_bytes(jdb)
     cfg = sse.finalize_cfg(name, cfg, bdb)
     r['evaluations'] += 1
@@ -414,6 +433,10 @@ def run_unit(p, tier, seed):
             run_two_services(r, seed, p['two'], order)
         det.restore()
         return r
+    if 'large' in p:
+        run_case(r, seed, p['large'], 'big', [1] * 6, None, cfg_over={'param_identifier_size': 128})
+        det.restore()
+        return r
     if 'smalldbs' in p:
         for dbi in (2, 3):
             for bits in ([0] * 6, [1] * 6, [1, 0, 1, 0, 1, 0]):
@@ -462,6 +485,6 @@ def replay(case, seed):
     if case.get('cli'):
         run_cli(r, seed, case['scheme'], case['db'])
         return r['violations']
-    run_case(r, seed, case['scheme'], case['db'], case['reload_before_step'], case['server_restart_before_step'], keypattern=case.get('keypattern'),
+    run_case(r, seed, case['scheme'], case['db'], case['reload_before_step'], case['server_restart_before_step'], keypattern=case.get('keypattern'), cfg_over=case.get('cfg_over'),
              timing=case.get('cleanup_timers_fired_after_step'), early_object_at=case.get('early_client_object_loaded_before_step'))
     return r['violations']
